@@ -1172,7 +1172,7 @@ func judgeSys(secName string, sec *vh.Section, c sysCase, r sysResult, answers [
 					fail("dryrun-tie", desc+": DRYRUN and the run pick different partitions among candidates with equal latest timestamps", fmt.Sprint(okd, d), fmt.Sprint(oka, a), strings.Join(dryModel.Outcomes, " ; "), bothEq, "F31")
 				case !okd && !oka:
 				case !okd && oka && a.gone && st.MaxDB != nil && bothEq && inUseEmptied(actual, users, rep, c):
-					// class of finding F77: the pass emptied a partition somebody holds, could not drop it, did not report or
+					// class of the FIXED finding F77 (46009da; a recurrence is reported as "the defect is back"): the pass emptied a partition somebody holds, could not drop it, did not report or
 					// subtract it, and went on to the next partition, which the dry run had not announced
 					fail("dryrun-in-use-divergence", desc+": the run drops a partition the dry run did not announce, after silently emptying a partition that is in use", fmt.Sprint(okd, d), fmt.Sprint(oka, a), strings.Join(dryModel.Outcomes, " ; "), bothEq, "F77")
 				case okd && !oka && users[i] > 0 && d.Deleted:
@@ -2278,8 +2278,8 @@ func sectionTrunc2Race() {
 			time.Sleep(10 * time.Millisecond)
 		}
 		time.Sleep(20 * time.Millisecond)
-	case <-time.After(4 * time.Second):
-		// A waits for B: the statements are serialised (a repair of the statement-vs-statement path of F56); the interleaving cannot happen
+	case <-time.After(2 * time.Second):
+		// A waits for B: the statements are serialised (4d9dcd4, the repair of the statement-vs-statement path of F56); the interleaving cannot happen
 		serialized = true
 	}
 	close(release)
@@ -2302,7 +2302,7 @@ func sectionTrunc2Race() {
 	in := map[string]interface{}{"stmt_A": q, "stmt_B": q, "before": before.layout(),
 		"interleaving": "B: snapshot, loops choose chunks 1-2, parked | A: whole statement, chunks 1-2 closed and their files removed | B: DeleteChunks(cks[1].Id(), …)"}
 	if panA != "" || panB != "" {
-		// class of finding F56: a chunk object taken from Chunks() before a concurrent DeleteChunks closed it is dereferenced
+		// class of the FIXED finding F56 (4d9dcd4, statement vs statement; a recurrence is reported as "the defect is back"): a chunk object taken from Chunks() before a concurrent DeleteChunks closed it is dereferenced
 		// (chunkWrapper.Id/Size/Count read cw.chunk, which closeInternal sets to nil, without the wrapper's lock)
 		f := vh.SpecFailure{Section: "trunc2race", Kind: "panic-on-removed-chunk", Input: in, Impl: fmt.Sprintf("A: %q B: %q", panA, panB), Spec: "both statements complete",
 			Model: "outside the model (the model's chunks are values)", ImplEqModel: false,
@@ -2713,7 +2713,7 @@ func sectionLightFill() {
 				return -1
 			}()), "stmt": q}
 		if xerr != nil || fmt.Sprint(after.seqs()) != fmt.Sprint(before.seqs()) {
-			// class of finding F78: the time index had no entry for the chunk at start-up and rebuilt its hull from the chunk's
+			// class of the FIXED finding F78 (3cb83a3; a recurrence is reported as "the defect is back"): the time index had no entry for the chunk at start-up and rebuilt its hull from the chunk's
 			// first and last record only (lightFill), and the chunk's newest event is neither
 			f := vh.SpecFailure{Section: "lightfill", Kind: "before-removed-newer-after-index-loss", Input: in, Impl: fmt.Sprintf("%v report=%q err=%v", after.seqs(), strings.TrimSpace(out), xerr), Spec: fmt.Sprint(before.seqs()),
 				Model: "choose on the claimed hull (maxTs 1009 < 2000) takes the chunk; before_removes_only_older does not apply: the hull was not built by chkInfo.update from the write notifications", ImplEqModel: true,
